@@ -135,7 +135,8 @@ def positions_ti(obj):
                    (lambda o, v, p=platform, n=name: o.images.images[p].__setitem__(n, v)), None)
     yield ("images[unreferenced-platform]", None,
            (lambda o, v: o.images.images.__setitem__(v, {"kernel": "images/vmlinuz"})),
-           ["zzz", obj.tree.arch[:3], obj.tree.arch.upper(), sorted(obj.tree.platforms | {obj.tree.arch})[-1][:-1] or "q"])
+           [x for x in ["zzz", obj.tree.arch[:3], obj.tree.arch.upper(), sorted(obj.tree.platforms | {obj.tree.arch})[-1][:-1] or "q"]
+            if x not in obj.tree.platforms | {obj.tree.arch}])
     yield "stage2.mainimage", "ti.stage2.path", _set(lambda o: o.stage2, "mainimage"), None
     yield "stage2.instimage", "ti.stage2.path", _set(lambda o: o.stage2, "instimage"), None
     yield ("checksums[+absolute]", "ti.checksum.path",
@@ -187,8 +188,24 @@ QUICK_BASES = ["composeinfo:forest", "composeinfo:layered", "images:grid", "imag
                "treeinfo:nested", "treeinfo:empty-tables", "treeinfo:layered", "discinfo"]
 
 
+def get_base(base):
+    """a named base object, or '["univ", fmt, seed, [edits]]': a state of the format's universe (thorough tier)"""
+    if base in BASES:
+        return BASES[base]
+    import json
+    _, fmt, seed, edits = json.loads(base)
+    mod = {"ci": CI, "im": IM, "ti": TI}[fmt]
+
+    def build():
+        spec = dict(mod.SEEDS)[seed]()
+        for e in edits:
+            spec = mod.apply_spec(spec, e)
+        return mod.build(spec)
+    return build, {"ci": positions_ci, "im": positions_im, "ti": positions_ti}[fmt], (_ti_dumps if fmt == "ti" else None)
+
+
 def eval_corruption(base, label, vi):
-    build, positions, dumper = BASES[base]
+    build, positions, dumper = get_base(base)
     obj = build()
     for lab, kind, setter, values in positions(obj):
         if lab == label:
@@ -282,13 +299,37 @@ def units(tier, seed):
         for name, _ in mod.SEEDS:
             us.append(("converse", fmt, name))
     us.append(("enum",))
+    if tier == "thorough":
+        # every state within one edit of every seed is a base object, too
+        for fmt, mod in (("ci", CI), ("im", IM), ("ti", TI)):
+            for name, mk in mod.SEEDS:
+                edits = mod.edits(mk())
+                k = seed % max(len(edits), 1)
+                edits = edits[k:] + edits[:k]
+                for i in range(0, len(edits), 6):
+                    us.append(("corrupt-univ", fmt, name, edits[i:i + 6]))
     return us
 
 
 def run_unit(unit, acc):
+    if unit[0] == "corrupt-univ":
+        import json
+        _, fmt, name, edits = unit
+        for e in edits:
+            base = json.dumps(["univ", fmt, name, [e]])
+            build, positions, dumper = get_base(base)
+            r = call(lambda: (dumper(build()) if dumper else build().dumps()))
+            if r[0] != "ok":
+                continue                                # (not a valid object to begin with: the converse units judge that)
+            if fmt == "ci":
+                spec = CI.apply_spec(dict(CI.SEEDS)[name](), e)
+                if not ci_valid(spec):
+                    continue
+            run_unit(("corrupt", base), acc)
+        return
     if unit[0] == "corrupt":
         base = unit[1]
-        build, positions, dumper = BASES[base]
+        build, positions, dumper = get_base(base)
         obj = build()
         npos = 0
         for label, kind, setter, values in positions(obj):
@@ -310,7 +351,11 @@ def run_unit(unit, acc):
                 acc.outcome("position:image-in-cell")
             if ".release." in label:
                 acc.outcome("position:layered-product-release")
-        acc.extra.setdefault("positions", {})[base] = npos
+        if base.startswith("["):
+            acc.n["positions_in_universe_state_bases"] += npos
+            acc.n["universe_state_bases"] += 1
+        else:
+            acc.extra.setdefault("positions", {})[base] = npos
         acc.sample({"base": base, "position": label, "value": o["value"], "dumps": o["result"]}, limit=3)
     elif unit[0] == "order":
         bases = ["composeinfo:layered", "composeinfo:forest", "images:v11", "treeinfo:layered", "discinfo"]
